@@ -296,8 +296,24 @@ func runC15(c *vlib.Ctx) {
 			}
 			var got []byte
 			var derr error
-			pn := vlib.Safely(func() { got, _, derr = dvid.DeserializeData(mut, true) })
 			rep := map[string]interface{}{"format": j.f.name, "kind": j.kind, "len": j.n, "mutation": what, "serialized_hex": hex.EncodeToString(mut)}
+			// without decompression requested (the pass-through read used for pre-compressed transfers): the checksum
+			// covers the stored bytes, so an altered payload must be refused on this path as well
+			{
+				var raw []byte
+				var rerr error
+				if pn := vlib.Safely(func() { raw, _, rerr = dvid.DeserializeData(mut, false) }); pn != nil {
+					c.Violate(fmt.Sprintf("corrupt:panic:nouncompress:%s:%s", j.f.name, c15PanicClass(pn)), fmt.Sprintf("DeserializeData(uncompress=false) panicked on %s of a %s value: %v", what, j.f.name, pn), rep)
+				} else if rerr == nil && payloadAltered && hasCRC {
+					c.Violate("corrupt:crc-undetected:nouncompress:"+j.f.name, fmt.Sprintf("payload altered (%s) under CRC32 but DeserializeData(uncompress=false) returned %d bytes as data", what, len(raw)), rep)
+				} else if rerr != nil {
+					c.Outcome("nouncompress-error")
+				} else {
+					c.Outcome("nouncompress-ok")
+				}
+				c.Eval(1)
+			}
+			pn := vlib.Safely(func() { got, _, derr = dvid.DeserializeData(mut, true) })
 			if pn != nil {
 				c.Violate(fmt.Sprintf("corrupt:panic:%s:%s", j.f.name, c15PanicClass(pn)), fmt.Sprintf("DeserializeData panicked on %s of a %s value: %v", what, j.f.name, pn), rep)
 				c.Outcome("panic")
